@@ -653,8 +653,6 @@ class FuncEffects(ast.NodeVisitor):
                 i = self.params.index(r)
                 (self.summary.mut if d == 0 else self.summary.mut_elem).add(i)
                 self.eng.via[self.q].append((i, callee, cidx, getattr(node, 'lineno', 0)))
-                if r in self.mutable_defaults:
-                    self.summary.glob.add(f"mutable default of parameter `{r}`")
             elif r.startswith('GLOBAL:'):
                 self.summary.glob.add(r)
                 self.eng.via[self.q].append(('glob', callee, cidx, getattr(node, 'lineno', 0)))
